@@ -144,6 +144,8 @@ def run_family(family, n, loops=False, vals=(1, 2), inf=3, types=(1, 2), probs=(
                given=(), walk=False, workers=4, timeout=3000):
     """family: key of INIT.  given: scenarios (dicts) for family "GIVEN".
     Returns (list of scenario dicts as emitted by TLC, TLCResult)."""
+    # the constants are sets of tuples / generated scenario sets, which a TLC config file cannot hold:
+    # they are definitions of a generated wrapper module, substituted with `<-`
     mc = ["---- MODULE MCPercolation ----", "EXTENDS Percolation",
           "MCVals == {%s}" % ", ".join(str(v) for v in sorted(vals)),
           "MCTypes == {%s}" % ", ".join(str(v) for v in sorted(types)),
@@ -741,6 +743,10 @@ def check_dperc(item):
                 continue
             if not _compare_H(out, entry, H0, G, ref, inv, dict(var, probe=True)):
                 continue
+            if not tau and not gamma and m2:
+                out.notes.append("corner outside the documented domain (tau, gamma 'positive float'): with tau = gamma = 0 both the delay and the "
+                                 "duration are Inf, 'delay == duration transmits' applies and directed_percolate_network keeps every edge "
+                                 "(the specification's closed rule says the same; not judged further)")
             owner = {}
             try:
                 val2k = {d: k for k, (r, d) in enumerate(tape)}
